@@ -86,6 +86,9 @@ var axioms = []axiom{
 	{[]string{"u8bnd"}, "(assert (forall ((s Str) (q Int)) (! (=> (and (<= 0 q) (< q (slen s)) (u8bnd s q)) (u8bnd s (+ q (u8width s q)))) :pattern ((u8width s q)))))", "UTF8"},
 	// STR: replacing something that does not occur changes nothing
 	{[]string{"str_replace"}, "(assert (forall ((s Str) (x Str) (y Str)) (! (=> (not (str_contains s x)) (= (str_replace s x y) s)) :pattern ((str_replace s x y)))))", "STR"},
+	// STR: replacing one byte by one byte keeps the length and maps byte by byte
+	{[]string{"str_replace"}, "(assert (forall ((s Str) (x Str) (y Str)) (! (=> (and (= (slen x) 1) (= (slen y) 1)) (= (slen (str_replace s x y)) (slen s))) :pattern ((str_replace s x y)))))", "STR"},
+	{[]string{"str_replace"}, "(assert (forall ((s Str) (x Str) (y Str) (i Int)) (! (=> (and (= (slen x) 1) (= (slen y) 1) (<= 0 i) (< i (slen s))) (= (sat (str_replace s x y) i) (ite (= (sat s i) (sat x 0)) (sat y 0) (sat s i)))) :pattern ((sat (str_replace s x y) i)))))", "STR"},
 	// FMT: a number prints as at least one character
 	{[]string{"itoa"}, "(assert (forall ((i Int)) (! (>= (slen (itoa i)) 1) :pattern ((itoa i)))))", "FMT"},
 	{[]string{"fmt_v"}, "(assert (forall ((a Any)) (! (=> (or ((_ is A_int) a) ((_ is A_float64) a)) (>= (slen (fmt_v a)) 1)) :pattern ((fmt_v a)))))", "FMT"},
